@@ -97,7 +97,7 @@ pub(crate) fn sanitize_namespace(key: &str) -> String {
         })
         .collect();
 
-    if sanitized.trim_matches('_').is_empty() {
+    if sanitized.trim_matches('_').is_empty() || sanitized.trim_matches('.').is_empty() {
         sanitized = format!("ns_{:x}", checksum64(key.as_bytes()));
     }
     sanitized
